@@ -129,6 +129,8 @@ def gen_cases(tier, rng):
         if cfg.get("push"):
             h.tick()
         yield Case(h.line(), cls="%d-epochs%s" % (epochs, "-push" if cfg.get("push") else ""))
+    # RTSP subscribers across publish / unpublish cycles (DESCRIBE before, during and after inputs; late RTP packets)
+    yield from fanout.gen_rtsp_histories(tier, rng, multi_epoch=True)
 
 
 def split_impl(c, out):
@@ -206,25 +208,10 @@ def oracle(c, out):
     po = obs.get("popen")
     if po is not None and po != [["0"]]:
         return (False, "%s relay-push session(s) still open at the target after the last input ended" % po[0][0])
-    # a DESCRIBE is answered with the SDP of the CURRENT input only
-    for cid, pos in describes.items():
-        got = obs.get(cid, [[]])[0]
-        cur = None
-        for ep, sp in enumerate(spans):
-            if sp[0] < pos < sp[1]:
-                cur = ep
-        want = None
-        for kk, sd in enumerate(sdps):
-            if sd["pos"] < pos and sd["epoch"] is not None and sd["epoch"] == cur:
-                want = kk
-        if cur is None:
-            # no input attached: whatever was announced before the last input ended must be gone
-            last_end = max([sp[1] for sp in spans if sp[1] < pos], default=-1)
-            late = [kk for kk, sd in enumerate(sdps) if last_end < sd["pos"] < pos]
-            want = late[-1] if late else None
-        exp = [] if want is None else ["d%d" % want]
-        if got != exp:
-            return (False, "DESCRIBE %s answered with %s, the current input's SDP is %s" % (cid, got, exp))
+    # RTSP subscribers: a DESCRIBE is answered with the SDP of the CURRENT input only (never one of an input that has ended)
+    r = fanout.check_rtsp(cfg, evs, obs)
+    if r:
+        return (False, "[%s] %s" % r)
     # clean restart: a consumer that joined during or after input e never receives anything of an earlier input
     for cid, k in kinds.items():
         if k in ("p", "t") or obs.get(cid) == [["!"]]:
